@@ -21,7 +21,13 @@ META = {
             "finding F4 now is a regression test: mutant revert_retire_stamp_fix).  get_timestamp/make_head/expire/"
             "get_current_timestamp, the loop-body stamp refresh, the index arithmetic, the copy/create/delete ranges of the "
             "slow path, the constructor/destructor loops and the memory orders are regenerated from vector.hpp on every "
-            "run.  Tie: the real class runs under the deterministic scheduler with virtual time; operator new/delete "
+            "run.  Whole-object operations (construction with T() or a user functor, move construction = delegate + swap, "
+            "move assignment, swap, growth of moved-to and moved-from vectors, destruction; sequential by contract) are a "
+            "second model CVObjModel over several vector objects, with what the move constructor hands to the delegated "
+            "constructor, the swap member list and create_block's `if (_constructor)` regenerated: after any such sequence "
+            "every block of every live vector was built by the real constructor that vector carries, and at the end every "
+            "block was constructed and destroyed exactly once (c04_moved_vectors_keep_their_constructor, "
+            "c04_objects_death).  Tie: the real class runs under the deterministic scheduler with virtual time; operator new/delete "
             "replacement + a counting element type observe every table/block allocation and free and every constructor/"
             "destructor; each outcome of a small program must be one the extracted model admits (exhaustive exploration of "
             "all schedules of the model).",
@@ -30,7 +36,10 @@ META = {
             "equal to the loaded one designates the same node chain); (2) sequentially consistent interleavings (memory "
             "orders are checked against the regenerated site tables only); (3) a thread that holds a table pointer for "
             "more than 64 s (stalled inside one call, or a snapshot older than 64 s) reads freed memory - the documented "
-            "contract of the time-based design, delimited exactly by c04_snapshot_usable.  A stall between the clock read "
+            "contract of the time-based design, delimited exactly by c04_snapshot_usable; (4) move/swap/destruction are not "
+            "concurrent with anything (documented), so they are modelled sequentially (CVObjModel) and the concurrent "
+            "model of one vector assumes the real element constructor that layer proves it carries; set_constructor() "
+            "is not modelled.  A stall between the clock read "
             "and the CAS within one round of retire's loop is harmless (proved).  Element payload is not modelled.  "
             "Trusted: Coq kernel; translator; extraction + OCaml explorer; macro shim + dsched (virtual clock); the "
             "driver's operator new/delete replacement and private-member sampling (-fno-access-control).",
@@ -163,6 +172,74 @@ DIRECTED = [
 ]
 
 
+# whole-object operations (move construction / assignment, swap) followed by growth of the moved-to AND the moved-from
+# vector: (block, setup script, threads).  threads == None: purely sequential, compared with the object model (CVObjModel)
+DIRECTED_OBJ = [
+    ("d2", "N0.7,G0.3,M1.0,G1.5,G0.1,T1", None),
+    ("d2", "N0.3,G0.1,M1.0,M2.1,G2.7,G1.0,G0.0,T2", None),
+    ("d2", "N0.5,G0.2,D1,X0.1,G0.9,G1.9,T0", None),
+    ("s2", "N0.5,G0.3,N1.6,A1.0,G1.7,G0.1,T1", None),
+    ("s4", "D0,G0.2,M1.0,G1.9,K0,M0.1,G0.13,T0", None),
+    ("d1", "D0,G0.1,M1.0,T1", [["E2", "C"], ["E3", "S", "G0"]]),
+    ("s4", "D0,G0.2,M1.0,T1", [["E9", "I2"], ["E5", "C", "E13"]]),
+    ("d1", "N0.4,G0.2,M1.0,T0", [["E1"], ["E0", "C"]]),
+    ("d2", "N0.6,G0.1,N1.8,G1.5,X0.1,T0", [["E9", "S", "G1"], ["F4-9", "C"], ["E12"]]),
+    ("s2", "N0.5,G0.3,N1.6,A1.0,T1", [["E7", "Z"], ["L2-7", "C"]]),
+    ("d3", "D0,M1.0,T1", [["E0", "E5"], ["E5", "E0"], ["R9", "C"]]),
+]
+
+
+def gen_obj(rng, with_threads):
+    block = rng.choice(["d1", "d2", "d4", "s1", "s2", "s4", "d3"])
+    bs = 1 << bits_of(block)
+    live, ops, moved_to = set(), [], []
+    def create(v):
+        if rng.chance(1, 2):
+            ops.append("D%d" % v)
+        else:
+            ops.append("N%d.%d" % (v, 2 + rng.below(8)))
+        live.add(v)
+    create(0)
+    if rng.chance(1, 2):
+        create(1)
+    for v in sorted(live):
+        ops.append("G%d.%d" % (v, rng.below(3 * bs)))
+    for _ in range(2 + rng.below(5)):
+        k = rng.below(10)
+        free = [v for v in range(4) if v not in live]
+        lv = sorted(live)
+        if k < 4 and free and lv:
+            d, sv = rng.choice(free), rng.choice(lv)
+            ops.append("M%d.%d" % (d, sv))
+            live.add(d)
+            moved_to.append(d)
+            # grow both afterwards (the moved-from dynamic vector has block size 1024: keep its indices small)
+            ops.append("G%d.%d" % (d, rng.below(4 * bs)))
+            if rng.chance(1, 2):
+                ops.append("G%d.%d" % (sv, rng.below(3)))
+        elif k < 6 and len(lv) >= 2:
+            a = rng.choice(lv)
+            b = rng.choice([x for x in lv if x != a])
+            ops.append("%s%d.%d" % (rng.choice("AX"), a, b))
+            ops.append("G%d.%d" % (rng.choice([a, b]), rng.below(3)))
+        elif k < 7 and len(lv) >= 2:
+            v = rng.choice(lv)
+            ops.append("K%d" % v)
+            live.discard(v)
+            moved_to[:] = [x for x in moved_to if x != v]
+        elif k < 9 and lv:
+            ops.append("G%d.%d" % (rng.choice(lv), rng.below(3)))
+        elif free:
+            create(rng.choice(free))
+    target = rng.choice(moved_to) if moved_to and rng.chance(3, 4) else rng.choice(sorted(live))
+    ops.append("T%d" % target)
+    threads = None
+    if with_threads:
+        _, threads = gen_small(rng)
+        threads = [[o for o in t if not (o[0] == "A" and int(o[1:]) > 1000)] or ["C"] for t in threads]
+    return block, ",".join(ops), threads
+
+
 def directed_schedules(nt, K):
     if nt == 1:
         return [[0]]
@@ -197,11 +274,13 @@ def main(argv):
                                         os.path.join(VERIF, "harness/shim/dsched.cpp")],
                          flags=["-fno-access-control"], ldflags=["-ldl"])
     rng = chk.rng
-    progs = []      # (pid, block, threads, kind)   kind: small | directed | big
+    progs = []      # (pid, block, threads, kind)   kind: small | directed | big | obj (sequential, vs CVObjModel) | objconc
+    psetup = {}     # pid -> whole-object setup script (kinds obj / objconc)
     cases = []      # (cid, pid, seed, strategy, choices)
     if chk.replay:
         r = json.load(open(chk.replay))["replay"]
         progs = [("r0", r["block"], r["threads"], r.get("kind", "big"))]
+        psetup["r0"] = r.get("setup", "-")
         cases = [("r0.0", "r0", r["seed"], r["strategy"], r.get("choices", []))]
     else:
         n_small, n_big = (70, 90) if not thorough else (300, 600)
@@ -220,7 +299,18 @@ def main(argv):
         for i in range(n_big):
             block, th = gen_big(rng)
             progs.append(("b%d" % i, block, th, "big"))
+        n_obj = 24 if not thorough else 120
+        objs = [(b, sc, th) for b, sc, th in DIRECTED_OBJ]
+        for i in range(n_obj):
+            objs.append(gen_obj(rng, i % 2 == 1))
+        for i, (block, script, th) in enumerate(objs):
+            pid = "o%d" % i
+            progs.append((pid, block, th if th else [["Z"]], "objconc" if th else "obj"))
+            psetup[pid] = script
         for pid, block, th, kind in progs:
+            if kind == "obj":
+                cases.append(("%s.0" % pid, pid, 1, 0, []))
+                continue
             if kind == "directed":
                 for si, ch in enumerate(directed_schedules(len(th), K)):
                     cases.append(("%s.d%d" % (pid, si), pid, 1, 2, ch))
@@ -232,18 +322,24 @@ def main(argv):
     cmeta = {}
     for cid, pid, seed, strat, ch in cases:
         _, block, th, kind = pmap[pid]
-        lines.append("%s %d %d %s %s %s" % (cid, seed, strat, block, prog_str(th), ",".join(map(str, ch)) or "-"))
+        lines.append("%s %d %d %s %s %s %s" % (cid, seed, strat, block, prog_str(th), ",".join(map(str, ch)) or "-",
+                                                 psetup.get(pid, "-")))
         cmeta[cid] = (pid, seed, strat, ch)
     chk.log("%d programs, %d cases" % (len(progs), len(lines)))
     impl_out = chk.run_cases(impl, lines, timeout=900) if impl else {}
     # model outcome sets (all schedules) for the small and directed programs
     model_sets = {}
+    obj_model = {}
     states = trans = 0
     if model:
         mlines = ["%s %d %d %s" % (pid, bits_of(block), T0, prog_str(th)) for pid, block, th, kind in progs
-                  if kind != "big" or chk.replay]
+                  if kind in ("small", "directed") or (chk.replay and kind == "big")]
+        mlines += ["%s OBJ %s %s" % (pid, block, psetup[pid]) for pid, block, th, kind in progs if kind == "obj"]
         mo = chk.run_cases(model, mlines, timeout=1800)
         for pid, l in mo.items():
+            if " objs=" in l:
+                obj_model[pid] = l.split(" objs=", 1)[1].strip()
+                continue
             if "outcomes=" not in l:
                 chk.broke("harness", "model driver", l[:300])
                 continue
@@ -279,7 +375,8 @@ def main(argv):
     for cid, l in impl_out.items():
         pid, seed, strat, ch = cmeta[cid]
         _, block, th, kind = pmap[pid]
-        rep = {"block": block, "threads": th, "seed": seed, "strategy": strat, "choices": ch, "kind": kind, "impl_line": l}
+        rep = {"block": block, "threads": th, "seed": seed, "strategy": strat, "choices": ch, "kind": kind, "impl_line": l,
+               "setup": psetup.get(pid, "-")}
         if l.startswith("DSCHED-STUCK"):
             chk.violate("stuck", "threads never finish: " + l[:400], rep)
             continue
@@ -291,13 +388,19 @@ def main(argv):
             chk.broke("harness", "unparsable driver line", l)
             continue
         detail = parts[2].split(" ! ", 1)[1] if " ! " in parts[2] else ""
-        mon = dict(x.split("=") for x in parts[2].split(" ! ", 1)[0].split())
+        mon = dict(x.split("=", 1) for x in parts[2].split(" ! ", 1)[0].split())
         stale = mon.get("stale") == "1"
         stale_runs += stale
         for m in MON:
             if mon.get(m) != "1":
-                chk.violate("mon-" + m, WHAT[m] + ": " + detail + " :: " + block + " " + prog_str(th), rep)
-        distinct.add((pid, parts[1]))
+                chk.violate("mon-" + m, WHAT[m] + ": " + detail + " :: " + block + " " + prog_str(th) +
+                            (" after " + psetup[pid] if pid in psetup and psetup[pid] != "-" else ""), rep)
+        distinct.add((pid, parts[1] + mon.get("objs", "")))
+        if pid in obj_model:
+            validated += 1
+            if mon.get("objs") != obj_model[pid]:
+                chk.broke("correspondence", "CVObjModel differs from the implementation on %s %s" % (block, psetup[pid]),
+                          "impl objs: %s\nmodel objs: %s" % (mon.get("objs"), obj_model[pid]))
         if pid in model_sets:
             outs, trunc, _ = model_sets[pid]
             validated += 1
@@ -317,6 +420,11 @@ def main(argv):
                        "into unit 0 with a reader holding the old snapshot; controls 65534->65535, 65535->1), each run under every schedule with <= 2 "
                        "pre-emptions in the first 9 scheduling points plus random ones; big programs: 2-5 threads, <= 8 ops, "
                        "block sizes 1..8, clock advances from the aimed set {1,63,64,65,127,128,129,200,2^16 units +-}; "
+                       "whole-object programs: directed + seeded random scripts of construct (T() or functor k) / ensure / move-"
+                       "construct / move-assign / swap / delete over 4 slots with growth of moved-to and moved-from vectors "
+                       "afterwards, half purely sequential (compared with the extracted CVObjModel), half followed by a "
+                       "concurrent small program on the moved-to/-from vector (monitors: built by the vector's constructor, "
+                       "constructed == destroyed, addresses stable across the move); "
                        "strategies uniform random, round-robin with random pre-emption, PCT; distinct non-trivial = distinct "
                        "(program, observed outcome incl. allocation counters); small+directed programs are explored "
                        "exhaustively in the extracted model and every implementation outcome must be in the model's set")
